@@ -201,11 +201,12 @@ class Section(Entity):
                             "is the same as the source parent")
         sec = obj._parent._h5group.copy(source=src, dest=self._h5group,
                                         name=name, cls=clsname,
+                                        shallow=not children,
                                         keep_id=keep_id)
 
         if not children:
             for prop in obj.props:
-                self.sections[obj.name].create_property(copy_from=prop, keep_copy_id=keep_id)
+                self.sections[name].create_property(copy_from=prop, keep_copy_id=keep_id)
 
         return self.sections[sec.attrs["entity_id"]]
 
